@@ -16,6 +16,13 @@
      SendNtf     a notification PDU goes out
      SendInd     an indication PDU goes out; needs the bearer's indication slot
      Callback    the PDU reaches the client, the subscriber of that kind is called
+     LocalSub / LocalUnsub / LocalGone
+                 the client's OWN subscriber table (Client.subscribe registers the callback before it
+                 writes the CCCD, Client.unsubscribe drops it before it writes 0; a CCCD written with
+                 a plain write never touches it).  It is independent of the server's CCCD value.
+     Discard     the PDU reaches a client that has no subscriber of that kind for the characteristic
+                 (CCCD written raw, forced indication, unsubscribe racing the PDU): nobody is called,
+                 but an indication is an indication - its confirmation is owed all the same
      Confirm     the client's Handle Value Confirmation reaches the server: slot released
      Expire      no confirmation within 30 s: the indication fails, slot released
      Return      the API call returns: an indication call only when every indication it owed
@@ -29,7 +36,8 @@ CONSTANTS Bearers, Chars,
           Mtu0,         \* ATT_MTU of every bearer initially
           MaxWrites,    \* bound on CCCD writes during a behaviour (model bound only)
           InitVals,     \* initial CCCD values: every combination of these over (bearer, char)
-          Lossy         \* TRUE: a confirmation may never arrive
+          Lossy,        \* TRUE: a confirmation may never arrive
+          InitLocal     \* initial content of the clients' own subscriber tables: one of these sets of kinds everywhere
 
 VARIABLES cccd,    \* [Bearers -> [Chars -> 0..3]]
           mtu,     \* [Bearers -> Nat]
@@ -39,9 +47,10 @@ VARIABLES cccd,    \* [Bearers -> [Chars -> 0..3]]
           air,     \* [Bearers -> Seq of [kind, c, len]]  PDUs sent, not yet handed to the client's subscriber
           cfmdue,  \* [Bearers -> BOOLEAN]  the client received an indication and has not confirmed yet
           sent,    \* history: set of [call, b, kind, c, len]
-          nwr      \* CCCD writes so far
+          nwr,     \* CCCD writes / local table changes so far
+          local    \* [Bearers -> [Chars -> SUBSET {"ntf", "ind", "?"}]]  kinds the client on the bearer has a callback for
 
-vars == <<cccd, mtu, calls, tasks, slot, air, cfmdue, sent, nwr>>
+vars == <<cccd, mtu, calls, tasks, slot, air, cfmdue, sent, nwr, local>>
 
 Bit(kind, v) == IF kind = "ntf" THEN v % 2 = 1 ELSE (v \div 2) % 2 = 1
 Min2(a, b) == IF a <= b THEN a ELSE b
@@ -55,14 +64,32 @@ Init == /\ cccd \in [Bearers -> [Chars -> InitVals]]
         /\ air = [b \in Bearers |-> <<>>]
         /\ cfmdue = [b \in Bearers |-> FALSE]
         /\ sent = {}
+        /\ \E L \in InitLocal : local = [b \in Bearers |-> [c \in Chars |-> L]]
 
 SetMtu(b, m) == /\ mtu' = [mtu EXCEPT ![b] = m]
-                /\ UNCHANGED <<cccd, calls, tasks, slot, air, cfmdue, sent, nwr>>
+                /\ UNCHANGED <<cccd, calls, tasks, slot, air, cfmdue, sent, nwr, local>>
 
 WriteCccd(b, c, v) ==
     /\ v \in 0..3 /\ nwr < MaxWrites
     /\ cccd' = [cccd EXCEPT ![b][c] = v] /\ nwr' = nwr + 1
-    /\ UNCHANGED <<mtu, calls, tasks, slot, air, cfmdue, sent>>
+    /\ UNCHANGED <<mtu, calls, tasks, slot, air, cfmdue, sent, local>>
+
+\* the client's own table: registering / dropping a callback is not a CCCD write
+LocalSub(b, c, kind) ==
+    /\ nwr < MaxWrites /\ kind \in {"ntf", "ind"}
+    /\ local' = [local EXCEPT ![b][c] = @ \cup {kind}] /\ nwr' = nwr + 1
+    /\ UNCHANGED <<cccd, mtu, calls, tasks, slot, air, cfmdue, sent>>
+
+\* Client.unsubscribe begins: from now until it is done ("?") a PDU may or may not still find the callback
+LocalUnsub(b, c) ==
+    /\ nwr < MaxWrites /\ "?" \notin local[b][c]
+    /\ local' = [local EXCEPT ![b][c] = @ \cup {"?"}] /\ nwr' = nwr + 1
+    /\ UNCHANGED <<cccd, mtu, calls, tasks, slot, air, cfmdue, sent>>
+
+LocalGone(b, c) ==
+    /\ "?" \in local[b][c]
+    /\ local' = [local EXCEPT ![b][c] = {}]
+    /\ UNCHANGED <<cccd, mtu, calls, tasks, slot, air, cfmdue, sent, nwr>>
 
 \* the bearers an API call owes a PDU to
 Owed(kind, c, force, targets) == {b \in targets : force \/ Bit(kind, cccd[b][c])}
@@ -76,7 +103,7 @@ Api(kind, c, force, vlen, targets) ==
                                   targets |-> targets, owed |-> owed, st |-> "running"])
        /\ tasks' = tasks \cup {[call |-> k, b |-> b, kind |-> kind, c |-> c,
                                 len |-> Trunc(vlen, mtu[b]), st |-> "queued"] : b \in owed}
-    /\ UNCHANGED <<cccd, mtu, slot, air, cfmdue, sent, nwr>>
+    /\ UNCHANGED <<cccd, mtu, slot, air, cfmdue, sent, nwr, local>>
 
 Move(t, st) == tasks' = (tasks \ {t}) \cup {[t EXCEPT !.st = st]}
 Pdu(t) == [kind |-> t.kind, c |-> t.c, len |-> t.len]
@@ -87,7 +114,7 @@ SendNtf(k, b) == \E t \in tasks :
     /\ t.call = k /\ t.b = b /\ t.kind = "ntf" /\ t.st = "queued"
     /\ Move(t, "done") /\ Log(t)
     /\ air' = [air EXCEPT ![t.b] = Append(@, Pdu(t))]
-    /\ UNCHANGED <<cccd, mtu, calls, slot, cfmdue, nwr>>
+    /\ UNCHANGED <<cccd, mtu, calls, slot, cfmdue, nwr, local>>
 
 SendInd(k, b) == \E t \in tasks :
     /\ t.call = k /\ t.b = b /\ t.kind = "ind" /\ t.st = "queued"
@@ -95,13 +122,23 @@ SendInd(k, b) == \E t \in tasks :
     /\ slot' = [slot EXCEPT ![t.b] = t.call]
     /\ Move(t, "awaiting") /\ Log(t)
     /\ air' = [air EXCEPT ![t.b] = Append(@, Pdu(t))]
-    /\ UNCHANGED <<cccd, mtu, calls, cfmdue, nwr>>
+    /\ UNCHANGED <<cccd, mtu, calls, cfmdue, nwr, local>>
+
+Solicited(b)   == air[b] # <<>> /\ Head(air[b]).kind \in local[b][Head(air[b]).c]
+Unsolicited(b) == air[b] # <<>> /\ (Head(air[b]).kind \notin local[b][Head(air[b]).c] \/ "?" \in local[b][Head(air[b]).c])
 
 Callback(b) ==
-    /\ air[b] # <<>>
+    /\ air[b] # <<>> /\ Solicited(b)
     /\ air' = [air EXCEPT ![b] = Tail(@)]
     /\ cfmdue' = [cfmdue EXCEPT ![b] = @ \/ Head(air[b]).kind = "ind"]
-    /\ UNCHANGED <<cccd, mtu, calls, tasks, slot, sent, nwr>>
+    /\ UNCHANGED <<cccd, mtu, calls, tasks, slot, sent, nwr, local>>
+
+\* nobody to call on this client: the value is dropped, the confirmation of an indication is still owed
+Discard(b) ==
+    /\ air[b] # <<>> /\ Unsolicited(b)
+    /\ air' = [air EXCEPT ![b] = Tail(@)]
+    /\ cfmdue' = [cfmdue EXCEPT ![b] = @ \/ Head(air[b]).kind = "ind"]
+    /\ UNCHANGED <<cccd, mtu, calls, tasks, slot, sent, nwr, local>>
 
 Awaiting(b) == {t \in tasks : t.b = b /\ t.st = "awaiting"}
 
@@ -110,7 +147,7 @@ Confirm(b) ==
     /\ \E t \in Awaiting(b) : Move(t, "done")
     /\ slot' = [slot EXCEPT ![b] = 0]
     /\ cfmdue' = [cfmdue EXCEPT ![b] = FALSE]
-    /\ UNCHANGED <<cccd, mtu, calls, air, sent, nwr>>
+    /\ UNCHANGED <<cccd, mtu, calls, air, sent, nwr, local>>
 
 \* the peer never confirms (the client swallowed the indication): time-out after 30 s
 Expire(b) ==
@@ -119,7 +156,7 @@ Expire(b) ==
     /\ slot' = [slot EXCEPT ![b] = 0]
     /\ air' = [air EXCEPT ![b] = SelectSeq(@, LAMBDA p : p.kind # "ind")]
     /\ cfmdue' = [cfmdue EXCEPT ![b] = FALSE]
-    /\ UNCHANGED <<cccd, mtu, calls, sent, nwr>>
+    /\ UNCHANGED <<cccd, mtu, calls, sent, nwr, local>>
 
 Finished(k) == \A t \in tasks : t.call = k /\ t.kind = "ind" => t.st \in {"done", "failed"}
 
@@ -127,7 +164,7 @@ Return(k) ==
     /\ k \in 1..Len(calls) /\ calls[k].st = "running"
     /\ Finished(k)
     /\ calls' = [calls EXCEPT ![k].st = "returned"]
-    /\ UNCHANGED <<cccd, mtu, tasks, slot, air, cfmdue, sent, nwr>>
+    /\ UNCHANGED <<cccd, mtu, tasks, slot, air, cfmdue, sent, nwr, local>>
 
 Targets == {Bearers} \cup {{b} : b \in Bearers}
 
@@ -136,12 +173,15 @@ Next == \/ \E b \in Bearers, c \in Chars, v \in 0..3 : WriteCccd(b, c, v)
                Api(kind, c, force, n, tg)
         \/ \E k \in 1..MaxCalls, b \in Bearers : SendNtf(k, b)
         \/ \E k \in 1..MaxCalls, b \in Bearers : SendInd(k, b)
+        \/ \E b \in Bearers, c \in Chars, kind \in {"ntf", "ind"} : LocalSub(b, c, kind)
+        \/ \E b \in Bearers, c \in Chars : LocalUnsub(b, c) \/ LocalGone(b, c)
         \/ \E b \in Bearers : Callback(b)
+        \/ \E b \in Bearers : Discard(b)
         \/ \E b \in Bearers : Confirm(b)
         \/ \E b \in Bearers : Expire(b)
         \/ \E k \in 1..MaxCalls : Return(k)
 
-\* every action but the (bounded) environment actions WriteCccd / Api is a step of the system
+\* every action but the (bounded) environment actions WriteCccd / LocalSub / LocalUnsub / Api is a step of the system
 \* or of a client that keeps its side of the protocol, so weak fairness of Next is enough
 Spec == Init /\ [][Next]_vars /\ WF_vars(Next)
 
